@@ -1,5 +1,5 @@
 // auto-generated: "lalrpop 0.23.1"
-// sha3: f8cc59b2e896639aded8ff6f24e03938d3706e91c6ff0126e6384aeb73c95d53
+// sha3: 5d902c7ebf090843e19fbec7dd92cd7c4251b7e4bf4acd9590e8f83b28f8863c
 use crate::rt::*;
 #[allow(unused_extern_crates)]
 extern crate lalrpop_util as __lalrpop_util;
@@ -10,7 +10,7 @@ extern crate alloc;
 
 #[rustfmt::skip]
 #[allow(explicit_outlives_requirements, non_snake_case, non_camel_case_types, unused_mut, unused_variables, unused_imports, unused_parens, clippy::needless_lifetimes, clippy::type_complexity, clippy::needless_return, clippy::too_many_arguments, clippy::match_single_binding, clippy::clone_on_copy, clippy::unit_arg)]
-mod __parse__S {
+mod __parse__N0 {
 
     use crate::rt::*;
     #[allow(unused_extern_crates)]
@@ -29,134 +29,43 @@ mod __parse__S {
     }
     const __ACTION: &[i8] = &[
         // State 0
-        3, 4, 0,
+        0, 0, 3, 0,
         // State 1
-        5, 6, 0,
+        0, 0, 0, 0,
         // State 2
-        7, 8, 0,
+        0, 4, 0, 0,
         // State 3
-        9, 10, 0,
+        0, 0, 0, 5,
         // State 4
-        0, 0, 11,
-        // State 5
-        0, 0, 12,
-        // State 6
-        13, 14, 0,
-        // State 7
-        15, 16, 0,
-        // State 8
-        17, 18, 0,
-        // State 9
-        19, 20, 0,
-        // State 10
-        -13, -13, 0,
-        // State 11
-        -14, -14, 0,
-        // State 12
-        0, 0, 21,
-        // State 13
-        0, 0, 22,
-        // State 14
-        0, 0, 23,
-        // State 15
-        0, 0, 24,
-        // State 16
-        0, 0, 25,
-        // State 17
-        0, 0, 26,
-        // State 18
-        0, 0, 27,
-        // State 19
-        0, 0, 28,
-        // State 20
-        -5, -5, 0,
-        // State 21
-        -6, -6, 0,
-        // State 22
-        -7, -7, 0,
-        // State 23
-        -8, -8, 0,
-        // State 24
-        -9, -9, 0,
-        // State 25
-        -10, -10, 0,
-        // State 26
-        -11, -11, 0,
-        // State 27
-        -12, -12, 0,
+        0, 0, 0, 0,
     ];
     fn __action(state: i8, integer: usize) -> i8 {
-        __ACTION[(state as usize) * 3 + integer]
+        __ACTION[(state as usize) * 4 + integer]
     }
     const __EOF_ACTION: &[i8] = &[
         // State 0
         0,
         // State 1
-        -15,
+        -7,
         // State 2
         0,
         // State 3
         0,
         // State 4
-        0,
-        // State 5
-        0,
-        // State 6
-        0,
-        // State 7
-        0,
-        // State 8
-        0,
-        // State 9
-        0,
-        // State 10
-        -13,
-        // State 11
-        -14,
-        // State 12
-        0,
-        // State 13
-        0,
-        // State 14
-        0,
-        // State 15
-        0,
-        // State 16
-        0,
-        // State 17
-        0,
-        // State 18
-        0,
-        // State 19
-        0,
-        // State 20
-        -5,
-        // State 21
-        -6,
-        // State 22
-        -7,
-        // State 23
-        -8,
-        // State 24
-        -9,
-        // State 25
-        -10,
-        // State 26
-        -11,
-        // State 27
-        -12,
+        -3,
     ];
     fn __goto(state: i8, nt: usize) -> i8 {
         match nt {
-            3 => 1,
+            2 => 1,
             _ => 0,
         }
     }
     #[allow(clippy::needless_raw_string_hashes)]
     const __TERMINAL: &[&str] = &[
-        r###""n""###,
-        r###""one""###,
-        r###""z""###,
+        r###""t0""###,
+        r###""t1""###,
+        r###""t2""###,
+        r###""t3""###,
     ];
     fn __expected_tokens(__state: i8) -> alloc::vec::Vec<alloc::string::String> {
         __TERMINAL.iter().enumerate().filter_map(|(index, terminal)| {
@@ -223,7 +132,7 @@ mod __parse__S {
 
         #[inline]
         fn error_action(&self, state: i8) -> i8 {
-            __action(state, 3 - 1)
+            __action(state, 4 - 1)
         }
 
         #[inline]
@@ -292,6 +201,7 @@ mod __parse__S {
             Tok('a', _, _, _) if true => Some(0),
             Tok('b', _, _, _) if true => Some(1),
             Tok('c', _, _, _) if true => Some(2),
+            Tok('d', _, _, _) if true => Some(3),
             _ => None,
         }
     }
@@ -303,7 +213,7 @@ mod __parse__S {
     ) -> __Symbol<>
     {
         #[allow(clippy::manual_range_patterns)]match __token_index {
-            0 | 1 | 2 => __Symbol::Variant0(__token),
+            0 | 1 | 2 | 3 => __Symbol::Variant0(__token),
             _ => unreachable!(),
         }
     }
@@ -328,88 +238,40 @@ mod __parse__S {
             }
             2 => {
                 __state_machine::SimulatedReduce::Reduce {
-                    states_to_pop: 1,
+                    states_to_pop: 3,
                     nonterminal_produced: 2,
                 }
             }
             3 => {
                 __state_machine::SimulatedReduce::Reduce {
-                    states_to_pop: 1,
-                    nonterminal_produced: 2,
+                    states_to_pop: 0,
+                    nonterminal_produced: 3,
                 }
             }
             4 => {
                 __state_machine::SimulatedReduce::Reduce {
-                    states_to_pop: 4,
+                    states_to_pop: 3,
                     nonterminal_produced: 3,
                 }
             }
             5 => {
                 __state_machine::SimulatedReduce::Reduce {
-                    states_to_pop: 4,
+                    states_to_pop: 1,
                     nonterminal_produced: 3,
                 }
             }
-            6 => {
-                __state_machine::SimulatedReduce::Reduce {
-                    states_to_pop: 4,
-                    nonterminal_produced: 3,
-                }
-            }
-            7 => {
-                __state_machine::SimulatedReduce::Reduce {
-                    states_to_pop: 4,
-                    nonterminal_produced: 3,
-                }
-            }
-            8 => {
-                __state_machine::SimulatedReduce::Reduce {
-                    states_to_pop: 4,
-                    nonterminal_produced: 3,
-                }
-            }
-            9 => {
-                __state_machine::SimulatedReduce::Reduce {
-                    states_to_pop: 4,
-                    nonterminal_produced: 3,
-                }
-            }
-            10 => {
-                __state_machine::SimulatedReduce::Reduce {
-                    states_to_pop: 4,
-                    nonterminal_produced: 3,
-                }
-            }
-            11 => {
-                __state_machine::SimulatedReduce::Reduce {
-                    states_to_pop: 4,
-                    nonterminal_produced: 3,
-                }
-            }
-            12 => {
-                __state_machine::SimulatedReduce::Reduce {
-                    states_to_pop: 3,
-                    nonterminal_produced: 3,
-                }
-            }
-            13 => {
-                __state_machine::SimulatedReduce::Reduce {
-                    states_to_pop: 3,
-                    nonterminal_produced: 3,
-                }
-            }
-            14 => __state_machine::SimulatedReduce::Accept,
+            6 => __state_machine::SimulatedReduce::Accept,
             _ => panic!("invalid reduction index {__reduce_index}")
         }
     }
-    pub struct SParser {
+    pub struct N0Parser {
         _priv: (),
     }
 
-    impl Default for SParser { fn default() -> Self { Self::new() } }
-    impl SParser {
-        pub fn new() -> SParser {
-            SParser {
+    impl Default for N0Parser { fn default() -> Self { Self::new() } }
+    impl N0Parser {
+        pub fn new() -> N0Parser {
+            N0Parser {
                 _priv: (),
             }
         }
@@ -482,142 +344,19 @@ mod __parse__S {
                 __reduce1(__lookahead_start, __symbols, core::marker::PhantomData::<()>)
             }
             2 => {
-                // J = "n" => ActionFn(11);
-                let __sym0 = __pop_Variant0(__symbols);
-                let __start = __sym0.0.clone();
-                let __end = __sym0.2.clone();
-                let __nt = match super::__action11::<>(__sym0) {
-                    Ok(v) => v,
-                    Err(e) => return Some(Err(e)),
-                };
-                __symbols.push((__start, __Symbol::Variant2(__nt), __end));
-                (1, 2)
+                __reduce2(__lookahead_start, __symbols, core::marker::PhantomData::<()>)
             }
             3 => {
                 __reduce3(__lookahead_start, __symbols, core::marker::PhantomData::<()>)
             }
             4 => {
-                // S = "n", "n", "n", "z" => ActionFn(15);
-                assert!(__symbols.len() >= 4);
-                let __sym3 = __pop_Variant0(__symbols);
-                let __sym2 = __pop_Variant0(__symbols);
-                let __sym1 = __pop_Variant0(__symbols);
-                let __sym0 = __pop_Variant0(__symbols);
-                let __start = __sym0.0.clone();
-                let __end = __sym3.2.clone();
-                let __nt = match super::__action15::<>(__sym0, __sym1, __sym2, __sym3) {
-                    Ok(v) => v,
-                    Err(e) => return Some(Err(e)),
-                };
-                __symbols.push((__start, __Symbol::Variant2(__nt), __end));
-                (4, 3)
+                __reduce4(__lookahead_start, __symbols, core::marker::PhantomData::<()>)
             }
             5 => {
-                // S = "n", "n", "one", "z" => ActionFn(16);
-                assert!(__symbols.len() >= 4);
-                let __sym3 = __pop_Variant0(__symbols);
-                let __sym2 = __pop_Variant0(__symbols);
-                let __sym1 = __pop_Variant0(__symbols);
-                let __sym0 = __pop_Variant0(__symbols);
-                let __start = __sym0.0.clone();
-                let __end = __sym3.2.clone();
-                let __nt = match super::__action16::<>(__sym0, __sym1, __sym2, __sym3) {
-                    Ok(v) => v,
-                    Err(e) => return Some(Err(e)),
-                };
-                __symbols.push((__start, __Symbol::Variant2(__nt), __end));
-                (4, 3)
+                __reduce5(__lookahead_start, __symbols, core::marker::PhantomData::<()>)
             }
             6 => {
-                // S = "n", "one", "n", "z" => ActionFn(17);
-                assert!(__symbols.len() >= 4);
-                let __sym3 = __pop_Variant0(__symbols);
-                let __sym2 = __pop_Variant0(__symbols);
-                let __sym1 = __pop_Variant0(__symbols);
-                let __sym0 = __pop_Variant0(__symbols);
-                let __start = __sym0.0.clone();
-                let __end = __sym3.2.clone();
-                let __nt = match super::__action17::<>(__sym0, __sym1, __sym2, __sym3) {
-                    Ok(v) => v,
-                    Err(e) => return Some(Err(e)),
-                };
-                __symbols.push((__start, __Symbol::Variant2(__nt), __end));
-                (4, 3)
-            }
-            7 => {
-                __reduce7(__lookahead_start, __symbols, core::marker::PhantomData::<()>)
-            }
-            8 => {
-                // S = "one", "n", "n", "z" => ActionFn(19);
-                assert!(__symbols.len() >= 4);
-                let __sym3 = __pop_Variant0(__symbols);
-                let __sym2 = __pop_Variant0(__symbols);
-                let __sym1 = __pop_Variant0(__symbols);
-                let __sym0 = __pop_Variant0(__symbols);
-                let __start = __sym0.0.clone();
-                let __end = __sym3.2.clone();
-                let __nt = match super::__action19::<>(__sym0, __sym1, __sym2, __sym3) {
-                    Ok(v) => v,
-                    Err(e) => return Some(Err(e)),
-                };
-                __symbols.push((__start, __Symbol::Variant2(__nt), __end));
-                (4, 3)
-            }
-            9 => {
-                // S = "one", "n", "one", "z" => ActionFn(20);
-                assert!(__symbols.len() >= 4);
-                let __sym3 = __pop_Variant0(__symbols);
-                let __sym2 = __pop_Variant0(__symbols);
-                let __sym1 = __pop_Variant0(__symbols);
-                let __sym0 = __pop_Variant0(__symbols);
-                let __start = __sym0.0.clone();
-                let __end = __sym3.2.clone();
-                let __nt = match super::__action20::<>(__sym0, __sym1, __sym2, __sym3) {
-                    Ok(v) => v,
-                    Err(e) => return Some(Err(e)),
-                };
-                __symbols.push((__start, __Symbol::Variant2(__nt), __end));
-                (4, 3)
-            }
-            10 => {
-                // S = "one", "one", "n", "z" => ActionFn(21);
-                assert!(__symbols.len() >= 4);
-                let __sym3 = __pop_Variant0(__symbols);
-                let __sym2 = __pop_Variant0(__symbols);
-                let __sym1 = __pop_Variant0(__symbols);
-                let __sym0 = __pop_Variant0(__symbols);
-                let __start = __sym0.0.clone();
-                let __end = __sym3.2.clone();
-                let __nt = match super::__action21::<>(__sym0, __sym1, __sym2, __sym3) {
-                    Ok(v) => v,
-                    Err(e) => return Some(Err(e)),
-                };
-                __symbols.push((__start, __Symbol::Variant2(__nt), __end));
-                (4, 3)
-            }
-            11 => {
-                __reduce11(__lookahead_start, __symbols, core::marker::PhantomData::<()>)
-            }
-            12 => {
-                // S = S, "n", "z" => ActionFn(23);
-                assert!(__symbols.len() >= 3);
-                let __sym2 = __pop_Variant0(__symbols);
-                let __sym1 = __pop_Variant0(__symbols);
-                let __sym0 = __pop_Variant2(__symbols);
-                let __start = __sym0.0.clone();
-                let __end = __sym2.2.clone();
-                let __nt = match super::__action23::<>(__sym0, __sym1, __sym2) {
-                    Ok(v) => v,
-                    Err(e) => return Some(Err(e)),
-                };
-                __symbols.push((__start, __Symbol::Variant2(__nt), __end));
-                (3, 3)
-            }
-            13 => {
-                __reduce13(__lookahead_start, __symbols, core::marker::PhantomData::<()>)
-            }
-            14 => {
-                // __S = S => ActionFn(0);
+                // __N0 = N0 => ActionFn(0);
                 let __sym0 = __pop_Variant2(__symbols);
                 let __start = __sym0.0.clone();
                 let __end = __sym0.2.clone();
@@ -695,6 +434,24 @@ mod __parse__S {
         __symbols.push((__start, __Symbol::Variant1(__nt), __end));
         (0, 1)
     }
+    fn __reduce2<
+    >(
+        __lookahead_start: Option<&i64>,
+        __symbols: &mut alloc::vec::Vec<(i64,__Symbol<>,i64)>,
+        _: core::marker::PhantomData<()>,
+    ) -> (usize, usize)
+    {
+        // N0 = "t2", "t1", "t3" => ActionFn(11);
+        assert!(__symbols.len() >= 3);
+        let __sym2 = __pop_Variant0(__symbols);
+        let __sym1 = __pop_Variant0(__symbols);
+        let __sym0 = __pop_Variant0(__symbols);
+        let __start = __sym0.0.clone();
+        let __end = __sym2.2.clone();
+        let __nt = super::__action11::<>(__sym0, __sym1, __sym2);
+        __symbols.push((__start, __Symbol::Variant2(__nt), __end));
+        (3, 2)
+    }
     fn __reduce3<
     >(
         __lookahead_start: Option<&i64>,
@@ -702,73 +459,49 @@ mod __parse__S {
         _: core::marker::PhantomData<()>,
     ) -> (usize, usize)
     {
-        // J = "one" => ActionFn(12);
-        let __sym0 = __pop_Variant0(__symbols);
-        let __start = __sym0.0.clone();
-        let __end = __sym0.2.clone();
-        let __nt = super::__action12::<>(__sym0);
+        // N1 =  => ActionFn(12);
+        let __start = __lookahead_start.cloned().or_else(|| __symbols.last().map(|s| s.2.clone())).unwrap_or_default();
+        let __end = __start.clone();
+        let __nt = super::__action12::<>(&__start, &__end);
         __symbols.push((__start, __Symbol::Variant2(__nt), __end));
-        (1, 2)
+        (0, 3)
     }
-    fn __reduce7<
+    fn __reduce4<
     >(
         __lookahead_start: Option<&i64>,
         __symbols: &mut alloc::vec::Vec<(i64,__Symbol<>,i64)>,
         _: core::marker::PhantomData<()>,
     ) -> (usize, usize)
     {
-        // S = "n", "one", "one", "z" => ActionFn(18);
-        assert!(__symbols.len() >= 4);
-        let __sym3 = __pop_Variant0(__symbols);
-        let __sym2 = __pop_Variant0(__symbols);
-        let __sym1 = __pop_Variant0(__symbols);
-        let __sym0 = __pop_Variant0(__symbols);
-        let __start = __sym0.0.clone();
-        let __end = __sym3.2.clone();
-        let __nt = super::__action18::<>(__sym0, __sym1, __sym2, __sym3);
-        __symbols.push((__start, __Symbol::Variant2(__nt), __end));
-        (4, 3)
-    }
-    fn __reduce11<
-    >(
-        __lookahead_start: Option<&i64>,
-        __symbols: &mut alloc::vec::Vec<(i64,__Symbol<>,i64)>,
-        _: core::marker::PhantomData<()>,
-    ) -> (usize, usize)
-    {
-        // S = "one", "one", "one", "z" => ActionFn(22);
-        assert!(__symbols.len() >= 4);
-        let __sym3 = __pop_Variant0(__symbols);
-        let __sym2 = __pop_Variant0(__symbols);
-        let __sym1 = __pop_Variant0(__symbols);
-        let __sym0 = __pop_Variant0(__symbols);
-        let __start = __sym0.0.clone();
-        let __end = __sym3.2.clone();
-        let __nt = super::__action22::<>(__sym0, __sym1, __sym2, __sym3);
-        __symbols.push((__start, __Symbol::Variant2(__nt), __end));
-        (4, 3)
-    }
-    fn __reduce13<
-    >(
-        __lookahead_start: Option<&i64>,
-        __symbols: &mut alloc::vec::Vec<(i64,__Symbol<>,i64)>,
-        _: core::marker::PhantomData<()>,
-    ) -> (usize, usize)
-    {
-        // S = S, "one", "z" => ActionFn(24);
+        // N1 = "t0", "t3", N0 => ActionFn(13);
         assert!(__symbols.len() >= 3);
-        let __sym2 = __pop_Variant0(__symbols);
+        let __sym2 = __pop_Variant2(__symbols);
         let __sym1 = __pop_Variant0(__symbols);
-        let __sym0 = __pop_Variant2(__symbols);
+        let __sym0 = __pop_Variant0(__symbols);
         let __start = __sym0.0.clone();
         let __end = __sym2.2.clone();
-        let __nt = super::__action24::<>(__sym0, __sym1, __sym2);
+        let __nt = super::__action13::<>(__sym0, __sym1, __sym2);
         __symbols.push((__start, __Symbol::Variant2(__nt), __end));
         (3, 3)
     }
+    fn __reduce5<
+    >(
+        __lookahead_start: Option<&i64>,
+        __symbols: &mut alloc::vec::Vec<(i64,__Symbol<>,i64)>,
+        _: core::marker::PhantomData<()>,
+    ) -> (usize, usize)
+    {
+        // N1 = "t0" => ActionFn(14);
+        let __sym0 = __pop_Variant0(__symbols);
+        let __start = __sym0.0.clone();
+        let __end = __sym0.2.clone();
+        let __nt = super::__action14::<>(__sym0);
+        __symbols.push((__start, __Symbol::Variant2(__nt), __end));
+        (1, 3)
+    }
 }
 #[allow(unused_imports)]
-pub use self::__parse__S::SParser;
+pub use self::__parse__N0::N0Parser;
 
 #[allow(clippy::too_many_arguments, clippy::needless_lifetimes, clippy::just_underscores_and_digits, clippy::extra_unused_type_parameters)]
 fn __action0<
@@ -783,38 +516,37 @@ fn __action0<
 fn __action1<
 >(
     (_, l, _): (i64, i64, i64),
-    (_, c0, _): (i64, Tree, i64),
-    (_, c1, _): (i64, Tree, i64),
-    (_, c2, _): (i64, Tree, i64),
-    (_, c3, _): (i64, Tok, i64),
+    (_, c0, _): (i64, Tok, i64),
+    (_, c1, _): (i64, Tok, i64),
+    (_, c2, _): (i64, Tok, i64),
     (_, r, _): (i64, i64, i64),
 ) -> Tree
 {
-    node("S#0", l, r, vec![Tree::from(c0), Tree::from(c1), Tree::from(c2), Tree::from(c3)])
+    node("N0#0", l, r, vec![Tree::from(c0), Tree::from(c1), Tree::from(c2)])
 }
 
 #[allow(clippy::too_many_arguments, clippy::needless_lifetimes, clippy::just_underscores_and_digits, clippy::extra_unused_type_parameters)]
 fn __action2<
 >(
     (_, l, _): (i64, i64, i64),
-    (_, c0, _): (i64, Tree, i64),
-    (_, c1, _): (i64, Tree, i64),
-    (_, c2, _): (i64, Tok, i64),
     (_, r, _): (i64, i64, i64),
 ) -> Tree
 {
-    node("S#1", l, r, vec![Tree::from(c0), Tree::from(c1), Tree::from(c2)])
+    node("N1#0", l, r, vec![])
 }
 
 #[allow(clippy::too_many_arguments, clippy::needless_lifetimes, clippy::just_underscores_and_digits, clippy::extra_unused_type_parameters)]
 fn __action3<
 >(
     (_, l, _): (i64, i64, i64),
+    (_, pL0, _): (i64, i64, i64),
     (_, c0, _): (i64, Tok, i64),
+    (_, c1, _): (i64, Tok, i64),
+    (_, c2, _): (i64, Tree, i64),
     (_, r, _): (i64, i64, i64),
-) -> Result<Tree,__lalrpop_util::ParseError<i64,Tok,u64>>
+) -> Tree
 {
-    fallible("J#0", l, r, vec![Tree::from(c0)])
+    { probe("N1#1", 0, 'L', pL0); node("N1#1", l, r, vec![Tree::from(c0), Tree::from(c1), Tree::from(c2)]) }
 }
 
 #[allow(clippy::too_many_arguments, clippy::needless_lifetimes, clippy::just_underscores_and_digits, clippy::extra_unused_type_parameters)]
@@ -825,7 +557,7 @@ fn __action4<
     (_, r, _): (i64, i64, i64),
 ) -> Tree
 {
-    node("J#1", l, r, vec![Tree::from(c0)])
+    node("N1#2", l, r, vec![Tree::from(c0)])
 }
 
 #[allow(clippy::needless_lifetimes, clippy::clone_on_copy)]
@@ -853,8 +585,10 @@ fn __action6<
 fn __action7<
 >(
     __0: (i64, Tok, i64),
-    __1: (i64, i64, i64),
-) -> Result<Tree,__lalrpop_util::ParseError<i64,Tok,u64>>
+    __1: (i64, Tok, i64),
+    __2: (i64, Tok, i64),
+    __3: (i64, i64, i64),
+) -> Tree
 {
     let __start0 = __0.0.clone();
     let __end0 = __0.0.clone();
@@ -863,16 +597,72 @@ fn __action7<
         &__end0,
     );
     let __temp0 = (__start0, __temp0, __end0);
-    __action3(
+    __action1(
         __temp0,
         __0,
         __1,
+        __2,
+        __3,
     )
 }
 
 #[allow(clippy::too_many_arguments, clippy::needless_lifetimes,
     clippy::just_underscores_and_digits, clippy::clone_on_copy, clippy::unit_arg)]
 fn __action8<
+>(
+    __0: (i64, i64, i64),
+) -> Tree
+{
+    let __start0 = __0.0.clone();
+    let __end0 = __0.0.clone();
+    let __temp0 = __action6(
+        &__start0,
+        &__end0,
+    );
+    let __temp0 = (__start0, __temp0, __end0);
+    __action2(
+        __temp0,
+        __0,
+    )
+}
+
+#[allow(clippy::too_many_arguments, clippy::needless_lifetimes,
+    clippy::just_underscores_and_digits, clippy::clone_on_copy, clippy::unit_arg)]
+fn __action9<
+>(
+    __0: (i64, Tok, i64),
+    __1: (i64, Tok, i64),
+    __2: (i64, Tree, i64),
+    __3: (i64, i64, i64),
+) -> Tree
+{
+    let __start0 = __0.0.clone();
+    let __end0 = __0.0.clone();
+    let __start1 = __0.0.clone();
+    let __end1 = __0.0.clone();
+    let __temp0 = __action6(
+        &__start0,
+        &__end0,
+    );
+    let __temp0 = (__start0, __temp0, __end0);
+    let __temp1 = __action6(
+        &__start1,
+        &__end1,
+    );
+    let __temp1 = (__start1, __temp1, __end1);
+    __action3(
+        __temp0,
+        __temp1,
+        __0,
+        __1,
+        __2,
+        __3,
+    )
+}
+
+#[allow(clippy::too_many_arguments, clippy::needless_lifetimes,
+    clippy::just_underscores_and_digits, clippy::clone_on_copy, clippy::unit_arg)]
+fn __action10<
 >(
     __0: (i64, Tok, i64),
     __1: (i64, i64, i64),
@@ -894,130 +684,10 @@ fn __action8<
 
 #[allow(clippy::too_many_arguments, clippy::needless_lifetimes,
     clippy::just_underscores_and_digits, clippy::clone_on_copy, clippy::unit_arg)]
-fn __action9<
->(
-    __0: (i64, Tree, i64),
-    __1: (i64, Tree, i64),
-    __2: (i64, Tree, i64),
-    __3: (i64, Tok, i64),
-    __4: (i64, i64, i64),
-) -> Tree
-{
-    let __start0 = __0.0.clone();
-    let __end0 = __0.0.clone();
-    let __temp0 = __action6(
-        &__start0,
-        &__end0,
-    );
-    let __temp0 = (__start0, __temp0, __end0);
-    __action1(
-        __temp0,
-        __0,
-        __1,
-        __2,
-        __3,
-        __4,
-    )
-}
-
-#[allow(clippy::too_many_arguments, clippy::needless_lifetimes,
-    clippy::just_underscores_and_digits, clippy::clone_on_copy, clippy::unit_arg)]
-fn __action10<
->(
-    __0: (i64, Tree, i64),
-    __1: (i64, Tree, i64),
-    __2: (i64, Tok, i64),
-    __3: (i64, i64, i64),
-) -> Tree
-{
-    let __start0 = __0.0.clone();
-    let __end0 = __0.0.clone();
-    let __temp0 = __action6(
-        &__start0,
-        &__end0,
-    );
-    let __temp0 = (__start0, __temp0, __end0);
-    __action2(
-        __temp0,
-        __0,
-        __1,
-        __2,
-        __3,
-    )
-}
-
-#[allow(clippy::too_many_arguments, clippy::needless_lifetimes,
-    clippy::just_underscores_and_digits, clippy::clone_on_copy, clippy::unit_arg)]
 fn __action11<
 >(
     __0: (i64, Tok, i64),
-) -> Result<Tree,__lalrpop_util::ParseError<i64,Tok,u64>>
-{
-    let __start0 = __0.2.clone();
-    let __end0 = __0.2.clone();
-    let __temp0 = __action5(
-        &__start0,
-        &__end0,
-    );
-    let __temp0 = (__start0, __temp0, __end0);
-    __action7(
-        __0,
-        __temp0,
-    )
-}
-
-#[allow(clippy::too_many_arguments, clippy::needless_lifetimes,
-    clippy::just_underscores_and_digits, clippy::clone_on_copy, clippy::unit_arg)]
-fn __action12<
->(
-    __0: (i64, Tok, i64),
-) -> Tree
-{
-    let __start0 = __0.2.clone();
-    let __end0 = __0.2.clone();
-    let __temp0 = __action5(
-        &__start0,
-        &__end0,
-    );
-    let __temp0 = (__start0, __temp0, __end0);
-    __action8(
-        __0,
-        __temp0,
-    )
-}
-
-#[allow(clippy::too_many_arguments, clippy::needless_lifetimes,
-    clippy::just_underscores_and_digits, clippy::clone_on_copy, clippy::unit_arg)]
-fn __action13<
->(
-    __0: (i64, Tree, i64),
-    __1: (i64, Tree, i64),
-    __2: (i64, Tree, i64),
-    __3: (i64, Tok, i64),
-) -> Tree
-{
-    let __start0 = __3.2.clone();
-    let __end0 = __3.2.clone();
-    let __temp0 = __action5(
-        &__start0,
-        &__end0,
-    );
-    let __temp0 = (__start0, __temp0, __end0);
-    __action9(
-        __0,
-        __1,
-        __2,
-        __3,
-        __temp0,
-    )
-}
-
-#[allow(clippy::too_many_arguments, clippy::needless_lifetimes,
-    clippy::just_underscores_and_digits, clippy::clone_on_copy, clippy::unit_arg)]
-fn __action14<
->(
-    __0: (i64, Tree, i64),
-    __1: (i64, Tree, i64),
+    __1: (i64, Tok, i64),
     __2: (i64, Tok, i64),
 ) -> Tree
 {
@@ -1028,343 +698,75 @@ fn __action14<
         &__end0,
     );
     let __temp0 = (__start0, __temp0, __end0);
+    __action7(
+        __0,
+        __1,
+        __2,
+        __temp0,
+    )
+}
+
+#[allow(clippy::too_many_arguments, clippy::needless_lifetimes,
+    clippy::just_underscores_and_digits, clippy::clone_on_copy, clippy::unit_arg)]
+fn __action12<
+>(
+    __lookbehind: &i64,
+    __lookahead: &i64,
+) -> Tree
+{
+    let __start0 = __lookbehind.clone();
+    let __end0 = __lookahead.clone();
+    let __temp0 = __action5(
+        &__start0,
+        &__end0,
+    );
+    let __temp0 = (__start0, __temp0, __end0);
+    __action8(
+        __temp0,
+    )
+}
+
+#[allow(clippy::too_many_arguments, clippy::needless_lifetimes,
+    clippy::just_underscores_and_digits, clippy::clone_on_copy, clippy::unit_arg)]
+fn __action13<
+>(
+    __0: (i64, Tok, i64),
+    __1: (i64, Tok, i64),
+    __2: (i64, Tree, i64),
+) -> Tree
+{
+    let __start0 = __2.2.clone();
+    let __end0 = __2.2.clone();
+    let __temp0 = __action5(
+        &__start0,
+        &__end0,
+    );
+    let __temp0 = (__start0, __temp0, __end0);
+    __action9(
+        __0,
+        __1,
+        __2,
+        __temp0,
+    )
+}
+
+#[allow(clippy::too_many_arguments, clippy::needless_lifetimes,
+    clippy::just_underscores_and_digits, clippy::clone_on_copy, clippy::unit_arg)]
+fn __action14<
+>(
+    __0: (i64, Tok, i64),
+) -> Tree
+{
+    let __start0 = __0.2.clone();
+    let __end0 = __0.2.clone();
+    let __temp0 = __action5(
+        &__start0,
+        &__end0,
+    );
+    let __temp0 = (__start0, __temp0, __end0);
     __action10(
         __0,
-        __1,
-        __2,
         __temp0,
-    )
-}
-
-#[allow(clippy::too_many_arguments, clippy::needless_lifetimes,
-    clippy::just_underscores_and_digits, clippy::clone_on_copy, clippy::unit_arg)]
-fn __action15<
->(
-    __0: (i64, Tok, i64),
-    __1: (i64, Tok, i64),
-    __2: (i64, Tok, i64),
-    __3: (i64, Tok, i64),
-) -> Result<Tree,__lalrpop_util::ParseError<i64,Tok,u64>>
-{
-    let __start0 = __0.0.clone();
-    let __end0 = __0.2.clone();
-    let __start1 = __1.0.clone();
-    let __end1 = __1.2.clone();
-    let __start2 = __2.0.clone();
-    let __end2 = __2.2.clone();
-    let __temp0 = __action11(
-        __0,
-    )?;
-    let __temp0 = (__start0, __temp0, __end0);
-    let __temp1 = __action11(
-        __1,
-    )?;
-    let __temp1 = (__start1, __temp1, __end1);
-    let __temp2 = __action11(
-        __2,
-    )?;
-    let __temp2 = (__start2, __temp2, __end2);
-    Ok(__action13(
-        __temp0,
-        __temp1,
-        __temp2,
-        __3,
-    ))
-}
-
-#[allow(clippy::too_many_arguments, clippy::needless_lifetimes,
-    clippy::just_underscores_and_digits, clippy::clone_on_copy, clippy::unit_arg)]
-fn __action16<
->(
-    __0: (i64, Tok, i64),
-    __1: (i64, Tok, i64),
-    __2: (i64, Tok, i64),
-    __3: (i64, Tok, i64),
-) -> Result<Tree,__lalrpop_util::ParseError<i64,Tok,u64>>
-{
-    let __start0 = __0.0.clone();
-    let __end0 = __0.2.clone();
-    let __start1 = __1.0.clone();
-    let __end1 = __1.2.clone();
-    let __start2 = __2.0.clone();
-    let __end2 = __2.2.clone();
-    let __temp0 = __action11(
-        __0,
-    )?;
-    let __temp0 = (__start0, __temp0, __end0);
-    let __temp1 = __action11(
-        __1,
-    )?;
-    let __temp1 = (__start1, __temp1, __end1);
-    let __temp2 = __action12(
-        __2,
-    );
-    let __temp2 = (__start2, __temp2, __end2);
-    Ok(__action13(
-        __temp0,
-        __temp1,
-        __temp2,
-        __3,
-    ))
-}
-
-#[allow(clippy::too_many_arguments, clippy::needless_lifetimes,
-    clippy::just_underscores_and_digits, clippy::clone_on_copy, clippy::unit_arg)]
-fn __action17<
->(
-    __0: (i64, Tok, i64),
-    __1: (i64, Tok, i64),
-    __2: (i64, Tok, i64),
-    __3: (i64, Tok, i64),
-) -> Result<Tree,__lalrpop_util::ParseError<i64,Tok,u64>>
-{
-    let __start0 = __0.0.clone();
-    let __end0 = __0.2.clone();
-    let __start1 = __1.0.clone();
-    let __end1 = __1.2.clone();
-    let __start2 = __2.0.clone();
-    let __end2 = __2.2.clone();
-    let __temp0 = __action11(
-        __0,
-    )?;
-    let __temp0 = (__start0, __temp0, __end0);
-    let __temp1 = __action12(
-        __1,
-    );
-    let __temp1 = (__start1, __temp1, __end1);
-    let __temp2 = __action11(
-        __2,
-    )?;
-    let __temp2 = (__start2, __temp2, __end2);
-    Ok(__action13(
-        __temp0,
-        __temp1,
-        __temp2,
-        __3,
-    ))
-}
-
-#[allow(clippy::too_many_arguments, clippy::needless_lifetimes,
-    clippy::just_underscores_and_digits, clippy::clone_on_copy, clippy::unit_arg)]
-fn __action18<
->(
-    __0: (i64, Tok, i64),
-    __1: (i64, Tok, i64),
-    __2: (i64, Tok, i64),
-    __3: (i64, Tok, i64),
-) -> Tree
-{
-    let __start0 = __0.0.clone();
-    let __end0 = __0.2.clone();
-    let __start1 = __1.0.clone();
-    let __end1 = __1.2.clone();
-    let __start2 = __2.0.clone();
-    let __end2 = __2.2.clone();
-    let __temp0 = __action11(
-        __0,
-    )?;
-    let __temp0 = (__start0, __temp0, __end0);
-    let __temp1 = __action12(
-        __1,
-    );
-    let __temp1 = (__start1, __temp1, __end1);
-    let __temp2 = __action12(
-        __2,
-    );
-    let __temp2 = (__start2, __temp2, __end2);
-    __action13(
-        __temp0,
-        __temp1,
-        __temp2,
-        __3,
-    )
-}
-
-#[allow(clippy::too_many_arguments, clippy::needless_lifetimes,
-    clippy::just_underscores_and_digits, clippy::clone_on_copy, clippy::unit_arg)]
-fn __action19<
->(
-    __0: (i64, Tok, i64),
-    __1: (i64, Tok, i64),
-    __2: (i64, Tok, i64),
-    __3: (i64, Tok, i64),
-) -> Result<Tree,__lalrpop_util::ParseError<i64,Tok,u64>>
-{
-    let __start0 = __0.0.clone();
-    let __end0 = __0.2.clone();
-    let __start1 = __1.0.clone();
-    let __end1 = __1.2.clone();
-    let __start2 = __2.0.clone();
-    let __end2 = __2.2.clone();
-    let __temp0 = __action12(
-        __0,
-    );
-    let __temp0 = (__start0, __temp0, __end0);
-    let __temp1 = __action11(
-        __1,
-    )?;
-    let __temp1 = (__start1, __temp1, __end1);
-    let __temp2 = __action11(
-        __2,
-    )?;
-    let __temp2 = (__start2, __temp2, __end2);
-    Ok(__action13(
-        __temp0,
-        __temp1,
-        __temp2,
-        __3,
-    ))
-}
-
-#[allow(clippy::too_many_arguments, clippy::needless_lifetimes,
-    clippy::just_underscores_and_digits, clippy::clone_on_copy, clippy::unit_arg)]
-fn __action20<
->(
-    __0: (i64, Tok, i64),
-    __1: (i64, Tok, i64),
-    __2: (i64, Tok, i64),
-    __3: (i64, Tok, i64),
-) -> Result<Tree,__lalrpop_util::ParseError<i64,Tok,u64>>
-{
-    let __start0 = __0.0.clone();
-    let __end0 = __0.2.clone();
-    let __start1 = __1.0.clone();
-    let __end1 = __1.2.clone();
-    let __start2 = __2.0.clone();
-    let __end2 = __2.2.clone();
-    let __temp0 = __action12(
-        __0,
-    );
-    let __temp0 = (__start0, __temp0, __end0);
-    let __temp1 = __action11(
-        __1,
-    )?;
-    let __temp1 = (__start1, __temp1, __end1);
-    let __temp2 = __action12(
-        __2,
-    );
-    let __temp2 = (__start2, __temp2, __end2);
-    Ok(__action13(
-        __temp0,
-        __temp1,
-        __temp2,
-        __3,
-    ))
-}
-
-#[allow(clippy::too_many_arguments, clippy::needless_lifetimes,
-    clippy::just_underscores_and_digits, clippy::clone_on_copy, clippy::unit_arg)]
-fn __action21<
->(
-    __0: (i64, Tok, i64),
-    __1: (i64, Tok, i64),
-    __2: (i64, Tok, i64),
-    __3: (i64, Tok, i64),
-) -> Result<Tree,__lalrpop_util::ParseError<i64,Tok,u64>>
-{
-    let __start0 = __0.0.clone();
-    let __end0 = __0.2.clone();
-    let __start1 = __1.0.clone();
-    let __end1 = __1.2.clone();
-    let __start2 = __2.0.clone();
-    let __end2 = __2.2.clone();
-    let __temp0 = __action12(
-        __0,
-    );
-    let __temp0 = (__start0, __temp0, __end0);
-    let __temp1 = __action12(
-        __1,
-    );
-    let __temp1 = (__start1, __temp1, __end1);
-    let __temp2 = __action11(
-        __2,
-    )?;
-    let __temp2 = (__start2, __temp2, __end2);
-    Ok(__action13(
-        __temp0,
-        __temp1,
-        __temp2,
-        __3,
-    ))
-}
-
-#[allow(clippy::too_many_arguments, clippy::needless_lifetimes,
-    clippy::just_underscores_and_digits, clippy::clone_on_copy, clippy::unit_arg)]
-fn __action22<
->(
-    __0: (i64, Tok, i64),
-    __1: (i64, Tok, i64),
-    __2: (i64, Tok, i64),
-    __3: (i64, Tok, i64),
-) -> Tree
-{
-    let __start0 = __0.0.clone();
-    let __end0 = __0.2.clone();
-    let __start1 = __1.0.clone();
-    let __end1 = __1.2.clone();
-    let __start2 = __2.0.clone();
-    let __end2 = __2.2.clone();
-    let __temp0 = __action12(
-        __0,
-    );
-    let __temp0 = (__start0, __temp0, __end0);
-    let __temp1 = __action12(
-        __1,
-    );
-    let __temp1 = (__start1, __temp1, __end1);
-    let __temp2 = __action12(
-        __2,
-    );
-    let __temp2 = (__start2, __temp2, __end2);
-    __action13(
-        __temp0,
-        __temp1,
-        __temp2,
-        __3,
-    )
-}
-
-#[allow(clippy::too_many_arguments, clippy::needless_lifetimes,
-    clippy::just_underscores_and_digits, clippy::clone_on_copy, clippy::unit_arg)]
-fn __action23<
->(
-    __0: (i64, Tree, i64),
-    __1: (i64, Tok, i64),
-    __2: (i64, Tok, i64),
-) -> Result<Tree,__lalrpop_util::ParseError<i64,Tok,u64>>
-{
-    let __start0 = __1.0.clone();
-    let __end0 = __1.2.clone();
-    let __temp0 = __action11(
-        __1,
-    )?;
-    let __temp0 = (__start0, __temp0, __end0);
-    Ok(__action14(
-        __0,
-        __temp0,
-        __2,
-    ))
-}
-
-#[allow(clippy::too_many_arguments, clippy::needless_lifetimes,
-    clippy::just_underscores_and_digits, clippy::clone_on_copy, clippy::unit_arg)]
-fn __action24<
->(
-    __0: (i64, Tree, i64),
-    __1: (i64, Tok, i64),
-    __2: (i64, Tok, i64),
-) -> Tree
-{
-    let __start0 = __1.0.clone();
-    let __end0 = __1.2.clone();
-    let __temp0 = __action12(
-        __1,
-    );
-    let __temp0 = (__start0, __temp0, __end0);
-    __action14(
-        __0,
-        __temp0,
-        __2,
     )
 }
 
